@@ -2795,48 +2795,20 @@ namespace awkward {
               output = current_outputs_[(IndexTypeOf<int64_t>)out_num].get();
             }
 
-            uint64_t mask = (1 << bit_width) - 1;
-            uint64_t bits_wnd_l = 8;
-            uint64_t bits_wnd_r = 0;
+            // Values are packed LSB-first; a value may straddle up to nine bytes.
+            // Only the low 64 bits of the window are kept: anything beyond is
+            // left over for the next value and is recovered from the last byte.
+            uint64_t mask = (bit_width >= 64 ? ~(uint64_t)0
+                                             : (((uint64_t)1 << bit_width) - 1));
+            int64_t bits_available = 0;
             int64_t items_remaining = num_items;
-            uint64_t data;
+            uint64_t data = 0;
+            uint64_t last = 0;
             uint64_t tmp;
             uint8_t* tmpptr;
 
-            if (items_remaining != 0) {
-              tmpptr = reinterpret_cast<uint8_t*>(input->read(1, current_error_));
-              if (current_error_ != util::ForthError::none) {
-                return;
-              }
-              tmp = (uint64_t)(*tmpptr);
-              if (flip) {
-                // For bit-flipping: https://stackoverflow.com/a/2603254/1623645
-                tmp = (uint64_t)(bitswap_lookup[tmp & 0b1111] << 4) | bitswap_lookup[tmp >> 4];
-              }
-              data = tmp;
-            }
             while (items_remaining != 0) {
-              if (bits_wnd_r >= 8) {
-                bits_wnd_r -= 8;
-                bits_wnd_l -= 8;
-                data >>= 8;
-              }
-              else if (bits_wnd_l - bits_wnd_r >= (uint64_t)bit_width) {
-                tmp = (data >> bits_wnd_r) & mask;
-                if (output == nullptr) {
-                  if (stack_cannot_push()) {
-                    current_error_ = util::ForthError::stack_overflow;
-                    return;
-                  }
-                  stack_push((T)tmp);
-                }
-                else {
-                  output->write_one_int64((T)tmp, false);
-                }
-                items_remaining--;
-                bits_wnd_r += (uint64_t)bit_width;
-              }
-              else {
+              while (bits_available < (int64_t)bit_width) {
                 tmpptr = reinterpret_cast<uint8_t*>(input->read(1, current_error_));
                 if (current_error_ != util::ForthError::none) {
                   return;
@@ -2846,9 +2818,27 @@ namespace awkward {
                   // For bit-flipping: https://stackoverflow.com/a/2603254/1623645
                   tmp = (uint64_t)(bitswap_lookup[tmp & 0b1111] << 4) | bitswap_lookup[tmp >> 4];
                 }
-                data |= tmp << bits_wnd_l;
-                bits_wnd_l += 8;
+                if (bits_available < 64) {
+                  data |= tmp << bits_available;
+                }
+                last = tmp;
+                bits_available += 8;
               }
+              tmp = data & mask;
+              if (output == nullptr) {
+                if (stack_cannot_push()) {
+                  current_error_ = util::ForthError::stack_overflow;
+                  return;
+                }
+                stack_push((T)tmp);
+              }
+              else {
+                output->write_one_int64((T)tmp, false);
+              }
+              items_remaining--;
+              // fewer than 8 bits are left over: the top bits of the last byte
+              bits_available -= (int64_t)bit_width;
+              data = (bits_available == 0 ? 0 : (last >> (8 - bits_available)));
             }
           }
 
